@@ -1,6 +1,7 @@
 import Rtsp.Model.Codec.Mpeg4Audio
 import Rtsp.Proofs.Codec.AudioBatch
 import Rtsp.Proofs.Codec.AudioBits
+import Rtsp.Proofs.Codec.AudioBitsWrite
 /-
 Helper lemmas about the model of pkg/format/rtpmpeg4audio: AU-header sizes, reading back the
 AU headers the encoder wrote, the loops of the decoder (AU headers, AU split, ADTS).
@@ -40,19 +41,68 @@ theorem hdrLen_mono (p : Params) (first : Bool) (m n : Nat) (h : m ≤ n) : hdrL
     have : (m - 1) * (p.sl + p.dl) ≤ (n - 1) * (p.sl + p.dl) := Nat.mul_le_mul_right _ (by omega)
     omega
 
+/-! ### the header loop writes the specified bits -/
+
+theorem writeHeadersGo_length (p : Params) (first : Bool) (aus : List Bytes) (buf : Bytes) (pos : Nat) :
+    (writeHeadersGo p first aus buf pos).1.length = buf.length := by
+  induction aus generalizing first buf pos with
+  | nil => rfl
+  | cons au rest ih => simp only [writeHeadersGo, ih, writeBitsGo_length]
+
+theorem hdrBytes_length (p : Params) (aus : List Bytes) : (hdrBytes p aus).length = ceil8 (hdrBitsLen p aus.length) := by
+  simp [hdrBytes, writeHeadersGo_length]
+
+theorem writeHeadersGo_spec (p : Params) (first : Bool) (aus : List Bytes) (buf : Bytes) (B : List Bool)
+    (h : HoldsAll buf B) (hv : ∀ au ∈ aus, au.length < 2 ^ p.sl)
+    (hlen : B.length + (auHeaders p first aus).length ≤ buf.length * 8) :
+    HoldsAll (writeHeadersGo p first aus buf B.length).1 (B ++ auHeaders p first aus) := by
+  induction aus generalizing first buf B with
+  | nil => simpa [writeHeadersGo, auHeaders] using h
+  | cons au rest ih =>
+    simp only [auHeaders, List.length_append, bitsOf_length, List.length_replicate] at hlen
+    obtain ⟨a1, a2, a3⟩ := writeBitsGo_spec buf B au.length p.sl h (hv au (by simp)) (by omega)
+    generalize hw : (if first = true then p.il else p.dl) = w at hlen
+    have hB1 : (B ++ bitsOf au.length p.sl).length = B.length + p.sl := by simp [bitsOf_length]
+    obtain ⟨b1, b2, b3⟩ := writeBitsGo_spec (writeBitsGo buf B.length au.length p.sl).1
+      (B ++ bitsOf au.length p.sl) 0 w a1 (Nat.pow_pos (by omega)) (by rw [hB1, a3]; omega)
+    rw [hB1, ← a2] at b1 b2
+    have hB2 : (B ++ bitsOf au.length p.sl ++ bitsOf 0 w).length = B.length + p.sl + w := by
+      simp [bitsOf_length]
+    have := ih false _ (B ++ bitsOf au.length p.sl ++ bitsOf 0 w) b1 (fun x hx => hv x (by simp [hx]))
+      (by rw [hB2, writeBitsGo_length, writeBitsGo_length]; omega)
+    rw [hB2, ← a2, ← b2, a2] at this
+    simp only [writeHeadersGo, auHeaders, hw]
+    rw [← a2]
+    simpa [bitsOf_zero, List.append_assoc] using this
+
+/-- **the header bytes are the specified bits**: for AU sizes below `2^SizeLength` the Go loop
+(`WriteBitsUnsafe` into a zeroed buffer) produces exactly `pack (auHeaders …)`. -/
+theorem hdrBytes_eq_pack (p : Params) (aus : List Bytes) (hv : ∀ au ∈ aus, au.length < 2 ^ p.sl) :
+    hdrBytes p aus = pack (auHeaders p true aus) := by
+  have hl := auHeaders_length p true aus
+  rw [← hdrBitsLen_eq] at hl
+  apply eq_pack_of_holdsAll
+  · have := writeHeadersGo_spec p true aus (List.replicate (ceil8 (hdrBitsLen p aus.length)) 0) []
+      (holdsAll_zeros _) hv (by
+        simp only [List.length_nil, Nat.zero_add, List.length_replicate, hl, ceil8]
+        split <;> omega)
+    simpa [hdrBytes] using this
+  · rw [hdrBytes_length, hl]
+
 theorem writeAggregated_payload_length (c : EncCfg) (p : Params) (aus : List Bytes) (ts : UInt32) (sq : UInt16) :
     ∀ q ∈ writeAggregated c p aus ts sq, q.payload.length = lenAggregated p aus none := by
   intro q hq
   simp only [writeAggregated, List.mem_singleton] at hq
   subst hq
-  simp only [List.length_append, be16, List.length_cons, List.length_nil, pack_length, auHeaders_length,
-    flatten_length, lenAggregated, hdrBitsLen_eq, Option.isSome_none, Bool.false_eq_true, ↓reduceIte,
+  simp only [List.length_append, be16, List.length_cons, List.length_nil, hdrBytes_length,
+    flatten_length, lenAggregated, Option.isSome_none, Bool.false_eq_true, ↓reduceIte,
     Nat.add_zero]
 
 theorem fragPayload_length (p : Params) (chunk : Bytes) :
     (fragPayload p chunk).length = 2 + ceil8 (p.sl + p.il) + chunk.length := by
-  simp only [fragPayload, List.length_append, be16, List.length_cons, List.length_nil, pack_length,
-    bitsOf_length, List.length_replicate]
+  simp only [fragPayload, List.length_append, be16, List.length_cons, List.length_nil, hdrBytes_length,
+    hdrBitsLen, Nat.add_one_ne_zero, ↓reduceIte, Nat.add_sub_cancel, Nat.zero_mul, Nat.add_zero,
+    Nat.zero_add]
 
 /-! ### the fragment loop of the encoder -/
 
